@@ -1363,6 +1363,11 @@ fn doc_cases(prop: &str) -> Vec<DocCase> {
                 out.push(DocCase { real_doc: true, property: "C05".into(), script_mode: false, skip_code: None, tests: tests.clone(), expect: "codes:0,1,3,0".into(), env: env.clone(), timeout_ms: BTreeMap::new() });
                 out.push(DocCase { real_doc: true, property: "C05".into(), script_mode: true, skip_code: None, tests, expect: "codes:0,1,3,0".into(), env, timeout_ms: BTreeMap::new() });
             }
+            // errexit carried from an earlier test case: every exit code is still the command's own
+            for prelude in ["set -e", "set -eu", "set -euo pipefail", "set -e; set -a", "set -e; shopt -s nullglob"] {
+                let tests = vec![t(&format!("{}; echo hi", prelude), &["hi"], None), t("echo two; (exit 7)", &["two"], Some(7)), t("echo three", &["three"], None), t("false", &[], Some(1)), t("echo five", &["five"], None)];
+                out.push(DocCase { real_doc: true, property: "C05".into(), script_mode: false, skip_code: None, tests, expect: "codes:0,7,0,1,0".into(), env: BTreeMap::new(), timeout_ms: BTreeMap::new() });
+            }
             // a command ended by a signal has no exit code: it never passes, nor does what follows
             for sig in ["TERM", "HUP", "INT", "QUIT", "KILL", "SEGV", "ABRT", "USR1", "USR2", "PIPE", "ALRM", "BUS", "FPE"] {
                 for script_mode in [false, true] {
